@@ -98,6 +98,9 @@ ASCII_TEXT = "abcxyzABZ019 .,;:!?()[]=+*-_/>|'\"&@~^`\t"
 ASCII_LIT = "abcxyzABZ019 .,;:!?=+*-_/@~^&"
 
 
+FUTURE = [["annotations"], ["division", "generator_stop"], ["annotations"]]
+
+
 def real_codec(codec):
     return "utf-8" if codec == "utf-8-bom" else codec
 
@@ -119,6 +122,8 @@ def observe(req):
     from mako.template import Template
 
     kw = dict(input_encoding=req["ie"], output_encoding=req["oe"], encoding_errors=req["errs"])
+    if req.get("fi"):
+        kw["future_imports"] = list(req["fi"])  # puts a second header line into the generated module
     path = req["path"]
     before = None
     try:
@@ -320,7 +325,7 @@ def check_case(case, env):
     for fn in (fn_a, fn_b):
         with open(fn, "wb") as fh:
             fh.write(raw)
-    base = dict(ie=case["ie"], oe=oe, errs=errs, v=case["v"])
+    base = dict(ie=case["ie"], oe=oe, errs=errs, v=case["v"], fi=case.get("fi"))
     reqs = {
         "bytes": dict(base, path="bytes", raw=case["raw"], uri="/%s_bytes.html" % tag),
         "file": dict(base, path="file", fn=fn_a),
@@ -422,7 +427,7 @@ def record(case, res, ev):
     negative = kind == "raise"
     conflict = case["style"] == "conflict" or case.get("neg") == "bom-contradicted"
     nt = bool((case.get("na_kinds", 0) >= 2 and case["codec"] != "utf-8") or conflict)
-    h = core.fp([case["raw"], case["comment_enc"], case["ie"], case["oe"], case["errs"], case["v"]])
+    h = core.fp([case["raw"], case["comment_enc"], case["ie"], case["oe"], case["errs"], case["v"], case.get("fi")])
     for path in done:
         ev.case(key=(case["codec"], case["style"], path, h), nontrivial=nt,
                 labels=("cell:%s/%s/%s" % (case["codec"], case["style"], path),))
@@ -585,7 +590,7 @@ def segments(codec, ascii_only):
 
 
 def make_case(codec, style, segs, v, oe, errs, comment_enc=None, fmt=0, trail="", term="\n", ie=None, junk=None,
-              neg=None):
+              neg=None, fi=None):
     """Assemble the serialisable case. comment_enc / ie are the *spelled* names (None = absent)."""
     cs = real_codec(codec)
     doc = Doc()
@@ -612,7 +617,7 @@ def make_case(codec, style, segs, v, oe, errs, comment_enc=None, fmt=0, trail=""
     return {
         "codec": codec, "style": style, "raw": raw.hex(), "comment_enc": comment_enc, "ie": ie, "oe": oe, "errs": errs,
         "v": v, "expected": expected, "na_kinds": len(doc.na), "kinds": sorted(doc.kinds), "junk": bool(junk),
-        "neg": neg,
+        "neg": neg, "fi": fi,
     }
 
 
@@ -673,8 +678,9 @@ def case_strategy(codec, style):
             if draw(one_in_4):
                 trail = draw(lines[ascii_only]).replace(":", ".").replace("=", ".").replace("\n", " ")
         junk = draw(junk_st) if draw(one_in_10) else None
+        fi = draw(st.sampled_from(FUTURE)) if draw(one_in_4) else None
         return make_case(codec, style, segs, v, oe, errs, comment_enc=comment_enc, fmt=fmt, trail=trail,
-                         term=term, ie=ie, junk=junk, neg=neg)
+                         term=term, ie=ie, junk=junk, neg=neg, fi=fi)
 
     return build()
 
@@ -776,6 +782,7 @@ def sweep_cases(codec, style, quick):
             for oe, er in sel:
                 v = vs[(i + len(er)) % 2]
                 yield (codec, style, segs, v, oe, er), dict(comment_enc=cenc, fmt=fmt, ie=ie, neg=neg,
+                                                            fi=FUTURE[i % len(FUTURE)] if i % 3 == 1 else None,
                                                             term="\r\n" if i % 4 == 0 else "\n",
                                                             trail=s if i % 3 == 0 else "")
 
@@ -808,6 +815,8 @@ def minimise(args, kw, f0, env):
         v = ""
     if kw.get("trail") and still(segs, v, dict(kw, trail="")):
         kw["trail"] = ""
+    if kw.get("fi") and still(segs, v, dict(kw, fi=None)):
+        kw["fi"] = None
     for i, sg in enumerate(segs):
         for j in range(1, len(sg)):
             if not isinstance(sg[j], str) or sg[0] == "escape" or len(sg[j]) <= 1:
